@@ -144,7 +144,7 @@ class RefApi:
         return None if self.target is None else self.sb.rel(self.target)
 
     def query(self, kind, rel, cmp='METADATA'):
-        r = self.run.query(kind, self.sb.p(rel))
+        r = self.run.query(kind, self.sb.p(rel), cmp)
         if kind in ('walk', 'walkb'):
             r = [[self.sb.rel(d), ds, fs] for d, ds, fs in r]
         return mask_answer(kind, rel, r, self.run.mask)
@@ -168,7 +168,8 @@ class RefApi:
             a = RefApi(self.sb, self.run, p)
             rv = body(a, *args2, **kwargs2)
             return (a.written, rv)
-        return self.run.build_file(p, b)
+        from .dsl import canon
+        return self.run.build_file(p, b, canon([fname, cmp, args2, kwargs2]))
 
     def subbuild(self, fname, body, args, kwargs):
         args2 = jround_checked(list(args))
